@@ -27,6 +27,27 @@ CLAIMED = {
     "C17": ("batch", "differential PBT: invalid UTF-8 byte strings, both AllowInvalidUTF8 modes, vs. reference width-1 U+FFFD decoding",
             "Bounded generated search over byte strings with injected invalid sequences x grammars x both modes; values, action text/pos and the complete invalid-encoding error list compared with the reference.",
             "Trusted: refpeg's advance model. Known finding KF-C17-FFFD-EOF excluded by an oracle-side predicate.", "DESIGN.md 3/C17"),
+    "C06": ("batch", "metamorphic PBT: Memoize/Debug/Statistics option combinations vs. default-option run (tied to the reference interpreter); work bounds from Stats.ExprCnt",
+            "Bounded generated search over pure-code grammars x inputs x option combinations; same success, value and code-block errors as the default run; with Memoize the evaluated-expression count is bounded by grammar expressions x (len+1) and by the number of distinct (expression, offset) pairs the reference evaluation reaches; no action twice at one offset.",
+            "Trusted: refpeg evaluation counting (pinned against Stats.ExprCnt on every plain run). Known finding KF-C06-MEMOLABEL excluded by an oracle-side predicate.", "DESIGN.md 3/C06"),
+    "C09": ("batch", "differential PBT: parser generated with -optimize-grammar vs. without, normal-form comparison; unoptimized side tied to the reference interpreter",
+            "Bounded generated search over optimizer-bait grammars (shared leaf rules, nested choices/sequences, mergeable literals and classes) x protected entry sets x inputs; same language, consumed prefix, action trace and values up to the regrouping the property allows.",
+            "Trusted: the normal form (flatten action-less nesting, drop nils, concatenate byte runs). Grammars whose optimized output does not compile are excluded and counted (C04's subject).", "DESIGN.md 3/C09"),
+    "C10": ("batch", "differential PBT: (X, X + -optimize-parser) parser pairs on the same cases",
+            "Bounded generated search over the union of profiles x flag pairs x inputs x fault plans; identical value, error text, panic behaviour and code-block traces incl. state snapshots.",
+            "Differential: defects common to both parsers are invisible here (other properties tie each side to the reference).", "DESIGN.md 3/C10"),
+    "C13": ("tool", "PBT + coverage-guided fuzzing of main() in-process with a validity predicate; sampled cross-check against the real binary",
+            "Bounded generated search over grammar texts (valid, near-valid mutations, arbitrary bytes) x flag combinations; main() must return or exit(n) with the documented diagnostics, never panic, never exit 0 on a rejected grammar, and produce Go on exit 0; thorough tier adds native coverage-guided campaigns.",
+            "Trusted: the in-process redirection of os.Args/stdio/exit (1 in 10 cases is cross-checked against the real command).", "DESIGN.md 3/C13"),
+    "C15": ("batch", "differential PBT with exhaustive inner loop: every drawn class x all 128 Basic Latin runes, general path vs. table, both vs. the definition",
+            "Classes are drawn by rapid; for every drawn class all 128 Basic Latin runes are enumerated (exhaustive for that class) plus non-ASCII runes and invalid bytes; table decision == general decision == definition.",
+            "Trusted: refpeg.ClassMember (definition of membership). Known finding KF-C15-ICLOWER excluded per (class, rune) by an oracle-side model of the defect.", "DESIGN.md 3/C15"),
+    "C16": ("batch", "PBT over budgets: MaxExpressions(n) relative to the measured need N, diverging grammars, all option combinations; reference run under the same budget",
+            "Bounded generated search over grammars (incl. diverging repetitions) x inputs x budgets x options; returns within the watchdog, n>=N identical result, n<N error reported, event/ExprCnt bounds, exact error list vs. the reference under the same budget (non-memoized).",
+            "Termination is decided by a generous watchdog (20 s per Parse, confirmed twice in isolation). Known finding KF-C16-MEMOZERO excluded by an oracle-side predicate.", "DESIGN.md 3/C16"),
+    "C20": ("regen", "exhaustive regeneration of all checked-in artifacts (part b); part a (front-end agreement on the bootstrap subset) by PBT",
+            "Part b enumerates the finite set of Makefile generation rules completely and compares bytes; the chain fixpoint is checked.",
+            "Trusted: the small make-subset interpreter; the Go toolchain.", "DESIGN.md 3/C20"),
 }
 
 NOT_YET = {
